@@ -274,14 +274,17 @@ impl WalkEntry {
 
     /// Get the name of this entry.
     pub fn file_name(&self) -> &OsStr {
+        // Path::file_name() only works if the last component is normal
+        fn last_component(path: &Path) -> &OsStr {
+            path.components()
+                .next_back()
+                .map(|c| c.as_os_str())
+                .unwrap_or_else(|| path.as_os_str())
+        }
         match &self.inner {
-            Entry::Explicit(path, _) => {
-                // Path::file_name() only works if the last component is normal
-                path.components()
-                    .next_back()
-                    .map(|c| c.as_os_str())
-                    .unwrap_or_else(|| path.as_os_str())
-            }
+            Entry::Explicit(path, _) => last_component(path),
+            // (walkdir names a starting point like "dir/.." by its whole path)
+            Entry::WalkDir(ent) if ent.depth() == 0 => last_component(ent.path()),
             Entry::WalkDir(ent) => ent.file_name(),
         }
     }
